@@ -24,6 +24,14 @@ func (v *VMValue) ToJSONRaw(save map[*VMValue]bool) ([]byte, error) {
 		}{v.TypeId})
 
 	case VMTypeComputedValue:
+		if save == nil {
+			save = map[*VMValue]bool{}
+		}
+		if _, exists := save[v]; exists {
+			return nil, errors.New("值错误: 序列化时检测到循环引用")
+		}
+		save[v] = true
+		defer delete(save, v)
 		cd, _ := v.ReadComputed()
 		x := struct {
 			TypeId VMValueType `json:"t"`
@@ -35,7 +43,7 @@ func (v *VMValue) ToJSONRaw(save map[*VMValue]bool) ([]byte, error) {
 		x.TypeId = v.TypeId
 		x.Value.Expr = cd.Expr
 		if cd.Attrs != nil {
-			attrJson, err := cd.Attrs.ToJSON()
+			attrJson, err := cd.Attrs.toJSONRaw(save)
 			if err != nil {
 				return nil, err
 			}
@@ -51,6 +59,8 @@ func (v *VMValue) ToJSONRaw(save map[*VMValue]bool) ([]byte, error) {
 			return nil, errors.New("值错误: 序列化时检测到循环引用")
 		}
 		save[v] = true
+		// 只记录“正在序列化的路径”：同一个值被多处引用不算循环
+		defer delete(save, v)
 		ad, _ := v.ReadArray()
 		lst := [][]byte{}
 		for _, i := range ad.List {
@@ -75,9 +85,11 @@ func (v *VMValue) ToJSONRaw(save map[*VMValue]bool) ([]byte, error) {
 			return nil, errors.New("值错误: 序列化时检测到循环引用")
 		}
 		save[v] = true
+		defer delete(save, v)
 		cd := v.MustReadDictData()
 
-		dictJson, err := cd.Dict.ToJSON()
+		// 沿用同一个路径集合，字典经由自身的循环引用才能被发现
+		dictJson, err := cd.Dict.toJSONRaw(save)
 		if err != nil {
 			return nil, err
 		}
